@@ -106,6 +106,16 @@ def check(p, pats_nodes, pat_strs, line, icase, notbol, noteol):
     ctx = rx.Ctx(line + "\n", icase, notbol, noteol)
     b2p = {b: i for i, b in enumerate(ctx.boff)}
     info["found"] = idx >= 0
+    # (0) the documented depth limit (256 nested forks) may only be hit by searches that really nest that deeply: the reference
+    # replays the search fork by fork; a margin of 56 levels absorbs differences in how alternations are nested
+    if cut:
+        try:
+            md = rx.max_fork_depth(root, ctx)
+        except (rx.Budget, RecursionError):
+            md = None
+        info["max_fork_depth"] = md
+        if md is not None and md <= 200:
+            return "the engine gave up at its depth limit (%d times) although no branch of this search nests deeper than %d forks" % (cut, md), info
     if idx < 0:
         if cut == 0:
             ss = rx.search_set(root, ctx)
@@ -121,10 +131,11 @@ def check(p, pats_nodes, pat_strs, line, icase, notbol, noteol):
     w = wrappers[idx]
     if e not in ctx.ends(w, s):
         return "reported span [%d,%d) of pattern %d is not a match of that pattern in this context" % (s, e, idx), info
-    # (2) leftmost over the whole set
-    for s0 in range(s):
-        if ctx.ends(root, s0):
-            return "a match exists at the earlier start %d, engine reported start %d" % (s0, s), info
+    # (2) leftmost over the whole set: promised only while the engine never gave up a branch at its depth limit
+    if cut == 0:
+        for s0 in range(s):
+            if ctx.ends(root, s0):
+                return "a match exists at the earlier start %d, engine reported start %d" % (s0, s), info
     # group spans of the chosen alternative: each is a match of its own sub-expression
     gmap = {}
     _groups(w, gmap)
